@@ -106,7 +106,9 @@ GUARDED["dir_move_with_inner_change"] = {"rename_full_dirs": False, "swap_full_d
 
 def generate(rng, tier):
     lifted = sorted(g for g in list(GUARDED) + [GUARD_IGNORE_MOVES, GUARD_SPAN] if rng.random() < 0.07)
-    ignore = rng.choice(IGNORE_SETS) if rng.random() < 0.25 else None
+    if os.environ.get("C43_FORCE_LIFTED"):  # triage aid; unset in normal runs
+        lifted = sorted(os.environ["C43_FORCE_LIFTED"].split(","))
+    ignore = rng.choice(IGNORE_SETS) if rng.random() < (0.25 if GUARD_IGNORE_MOVES not in lifted or not os.environ.get("C43_FORCE_LIFTED") else 0.9) else None
     opts = {
         "inside_links": True,
         "odd_names": rng.random() < 0.25,
@@ -286,6 +288,18 @@ def category(mh, revs, patterns):
     return "-"
 
 
+GUARD_CLASSES = ("symlink", "ignored-path-moved", "multi-revision-span", "dir-move-with-inner-change")
+
+
+def vsig(oracle, mh, revs, patterns, rest):
+    """Signature: [oracle, class] for an upload span that falls into a reported (guarded) defect
+    class, else [oracle] + rest + [category]."""
+    cat = category(mh, revs, patterns)
+    if cat in GUARD_CLASSES:
+        return [oracle, cat]
+    return [oracle] + list(rest) + [cat]
+
+
 def culprit(mh, revs, got, want):
     """Labels of the actions (in the uploaded span) that touched a differing path."""
     bad = [p for p in sorted(set(got) | set(want)) if got.get(p) != want.get(p)]
@@ -363,7 +377,7 @@ def execute(sim, plan):
             got = {p: v for p, v in got.items() if p in want}
         if got != want:
             lab = culprit(mh, span, got, want)
-            sim.fail("remote_differs", ["remote_differs", what, category(mh, span, patterns) + (":" + sigtail if sigtail else "")], f"{what} of {rid} [{lab}] (span {span}, ignore {patterns}): remote differs from the tree: {diff_states(got, want)}\nactions: {[mh.revs[r]['actions'] for r in span][-3:]}"[:3500])
+            sim.fail("remote_differs", vsig("remote_differs", mh, span, patterns, [what] + ([sigtail] if sigtail else [])), f"{what} of {rid} [{lab}] (span {span}, ignore {patterns}): remote differs from the tree: {diff_states(got, want)}\nactions: {[mh.revs[r]['actions'] for r in span][-3:]}"[:3500])
         m = marker(root)
         if m != rid:
             sim.fail("marker", ["marker", what], f"{what} of {rid}: marker file holds {m!r}")
@@ -399,7 +413,7 @@ def execute(sim, plan):
                 sim.restart_main()
             if not fired:
                 if err is not None:
-                    sim.fail("upload_raises", ["upload_raises", mode, norm_exc(err), category(mh, span, patterns)], f"{mode} upload of {rid} (span {span}) failed without any fault: {type(err).__name__}: {err}\nactions: {[mh.revs[r]['actions'] for r in span][-3:]}"[:3000])
+                    sim.fail("upload_raises", vsig("upload_raises", mh, span, patterns, [mode, norm_exc(err)]), f"{mode} upload of {rid} (span {span}) failed without any fault: {type(err).__name__}: {err}\nactions: {[mh.revs[r]['actions'] for r in span][-3:]}"[:3000])
                 judge(rid, mode)
                 sim.probe("fault_beyond_end")
             else:
@@ -440,7 +454,7 @@ def execute(sim, plan):
                     except Exception as e:  # noqa: BLE001
                         import traceback
 
-                        sim.fail("rerun_full_raises", ["rerun_full_raises", kindsig, norm_exc(e)], f"full upload of {rid} after an interrupted upload failed: {type(e).__name__}: {e}\n{traceback.format_exc()[-1200:]}")
+                        sim.fail("rerun_full_raises", vsig("rerun_full_raises", mh, span, patterns, [kindsig, norm_exc(e)]), f"full upload of {rid} after an interrupted upload failed: {type(e).__name__}: {e}\n{traceback.format_exc()[-1200:]}")
                     judge(rid, "rerun-full", lenient_extras=True, sigtail=kindsig)
                     sim.probe("rerun_full_ok")
                     # leftovers are possible now: the strict sequence ends here
@@ -457,7 +471,7 @@ def execute(sim, plan):
         except Exception as e:  # noqa: BLE001
             import traceback
 
-            sim.fail("upload_raises", ["upload_raises", mode, norm_exc(e), category(mh, span, patterns)], f"{mode} upload of {rid} (span {span}, ignore {patterns}) failed: {type(e).__name__}: {e}\nactions: {[mh.revs[r]['actions'] for r in span][-3:]}\n{traceback.format_exc()[-1500:]}"[:4000])
+            sim.fail("upload_raises", vsig("upload_raises", mh, span, patterns, [mode, norm_exc(e)]), f"{mode} upload of {rid} (span {span}, ignore {patterns}) failed: {type(e).__name__}: {e}\nactions: {[mh.revs[r]['actions'] for r in span][-3:]}\n{traceback.format_exc()[-1500:]}"[:4000])
         judge(rid, mode)
         if labels & (RISKY | {"remove-file", "remove-symlink", "remove-directory", "chmod", "rename-file", "rename-symlink", "rename-directory"}) and mode == "incremental":
             interesting = True
